@@ -505,3 +505,170 @@ theorem kruskal_krTenmat [CommSemiring α] (K : Ktensor α) (hK : K.WF) (r c : L
       rw [Mat.get_eq_getD_row L' a q ha, Mat.get_eq_getD_row Rm' b q hb]
 
 end Pyttb
+
+namespace Pyttb
+variable {α : Type}
+
+/-! ### what is refused -/
+
+/-- the modes named in the arguments all appear in the pair `gather_wrap_dims` returns. -/
+theorem wrap_mem (n : Nat) (rd cd : Option (List Nat)) (cyc : Option Cyclic) (r c : List Nat)
+    (h : gatherWrapDims n rd cd cyc = .ok (r, c)) :
+    (∀ l, rd = some l → ∀ x ∈ l, x ∈ r ++ c) ∧ (∀ l, cd = some l → ∀ x ∈ l, x ∈ r ++ c) := by
+  unfold gatherWrapDims at h
+  cases rd with
+  | none =>
+    cases cd with
+    | none => cases h
+    | some c' =>
+      simp only [Except.ok.injEq, Prod.mk.injEq] at h
+      obtain ⟨rfl, rfl⟩ := h
+      exact ⟨fun l hl => (by cases hl), fun l hl x hx => by cases hl; exact List.mem_append_right _ hx⟩
+  | some r' =>
+    cases cd with
+    | some c' =>
+      simp only [Except.ok.injEq, Prod.mk.injEq] at h
+      obtain ⟨rfl, rfl⟩ := h
+      exact ⟨fun l hl x hx => by cases hl; exact List.mem_append_left _ hx,
+        fun l hl x hx => by cases hl; exact List.mem_append_right _ hx⟩
+    | none =>
+      refine ⟨?_, fun l hl => (by cases hl)⟩
+      intro l hl x hx
+      cases hl
+      simp only at h
+      split at h
+      · simp only [Except.ok.injEq, Prod.mk.injEq] at h
+        obtain ⟨rfl, rfl⟩ := h
+        exact List.mem_append_right _ hx
+      · simp only [Except.ok.injEq, Prod.mk.injEq] at h
+        obtain ⟨rfl, rfl⟩ := h
+        exact List.mem_append_left _ hx
+      · simp only [Except.ok.injEq, Prod.mk.injEq] at h
+        obtain ⟨rfl, rfl⟩ := h
+        exact List.mem_append_left _ hx
+      · simp only [Except.ok.injEq, Prod.mk.injEq] at h
+        obtain ⟨rfl, rfl⟩ := h
+        exact List.mem_append_left _ hx
+
+/-- the range test is implied by the permutation test: a split is acceptable iff
+`gather_wrap_dims` yields a pair whose concatenation is a permutation of the modes. -/
+theorem splitValid_iff_perm (n : Nat) (rd cd : Option (List Nat)) (cyc : Option Cyclic) :
+    splitValid n rd cd cyc = true ↔
+      ∃ r c, gatherWrapDims n rd cd cyc = .ok (r, c) ∧ isPermOf (r ++ c) n = true := by
+  rw [splitValid_iff]
+  constructor
+  · rintro ⟨_, _, h⟩; exact h
+  · rintro ⟨r, c, hg, hp⟩
+    obtain ⟨h1, h2⟩ := wrap_mem n rd cd cyc r c hg
+    refine ⟨?_, ?_, r, c, hg, hp⟩
+    · cases rd with
+      | none => rfl
+      | some l =>
+        simp only [inR, List.all_eq_true, decide_eq_true_eq]
+        exact fun x hx => isPermOf_lt_of_mem hp (h1 l rfl x hx)
+    · cases cd with
+      | none => rfl
+      | some l =>
+        simp only [inR, List.all_eq_true, decide_eq_true_eq]
+        exact fun x hx => isPermOf_lt_of_mem hp (h2 l rfl x hx)
+
+section rejects
+variable [CommSemiring α] [DecidableEq α]
+
+theorem toTenmat_invalid (T : Dense α) (hT : T.WF) (rd cd : Option (List Nat)) (cyc : Option Cyclic)
+    (hv : splitValid T.shape.length rd cd cyc = false) : T.toTenmat rd cd cyc = .error .reject := by
+  rcases toTenmat_general T hT rd cd cyc with h | ⟨r, c, hg, hp, _⟩
+  · exact h
+  · have := (splitValid_iff_perm _ rd cd cyc).2 ⟨r, c, hg, hp⟩
+    rw [this] at hv; cases hv
+
+theorem toSptenmat_invalid (S : Sparse α) (hS : S.WF) (rd cd : Option (List Nat)) (cyc : Option Cyclic)
+    (hv : splitValid S.shape.length rd cd cyc = false) : S.toSptenmat rd cd cyc = .error .reject := by
+  rcases toSptenmat_general S hS rd cd cyc with h | ⟨r, c, hg, hp, _⟩
+  · exact h
+  · have := (splitValid_iff_perm _ rd cd cyc).2 ⟨r, c, hg, hp⟩
+    rw [this] at hv; cases hv
+
+/-- **One ill-typed step is refused**: a method the class does not have, or a mode split that is
+not a partition of the modes. -/
+theorem step_rejects (c : Conv) (h : Holder α) (hw : h.WF)
+    (hbad : c.target h.kind = none ∨ c.argsValid h.shape.length = false) :
+    c.apply h = .error .reject := by
+  cases c with
+  | full =>
+    cases h <;> first | rfl | (rcases hbad with hb | hb <;> cases hb)
+  | toTensor =>
+    cases h <;> first | rfl | (rcases hbad with hb | hb <;> cases hb)
+  | toSptensor =>
+    cases h <;> first | rfl | (rcases hbad with hb | hb <;> cases hb)
+  | toTenmat rd cd cyc =>
+    cases h with
+    | dense T =>
+      rcases hbad with hb | hb
+      · cases hb
+      · show liftTenmat (T.toTenmat rd cd cyc) = _
+        rw [toTenmat_invalid T hw.1 rd cd cyc hb]; rfl
+    | kruskal K =>
+      rcases hbad with hb | hb
+      · cases hb
+      · obtain ⟨D, hD, hs, hW, _⟩ := kruskal_full_denoted K hw
+        show liftTenmat (K.toTenmat rd cd cyc) = _
+        have hK : K.toTenmat rd cd cyc = D.toTenmat rd cd cyc := by unfold Ktensor.toTenmat; rw [hD]
+        have hb' : splitValid D.shape.length rd cd cyc = false := by rw [hs]; exact hb
+        rw [hK, toTenmat_invalid D hW rd cd cyc hb']; rfl
+    | sparse S => rfl
+    | tucker T => rfl
+    | sum P => rfl
+    | tenmat M => rfl
+    | sptenmat M => rfl
+  | toSptenmat rd cd cyc =>
+    cases h with
+    | sparse S =>
+      rcases hbad with hb | hb
+      · cases hb
+      · show liftSptenmat (S.toSptenmat rd cd cyc) = _
+        rw [toSptenmat_invalid S hw.1 rd cd cyc hb]; rfl
+    | dense T => rfl
+    | kruskal K => rfl
+    | tucker T => rfl
+    | sum P => rfl
+    | tenmat M => rfl
+    | sptenmat M => rfl
+
+/-- **A chain from a well-formed holder is accepted exactly when it is well-typed.** -/
+theorem chain_ok_iff (cs : List Conv) (h : Holder α) (hw : h.WF) :
+    (∃ h', runChain cs h = .ok h') ↔ chainValid h.shape.length cs h.kind = true := by
+  constructor
+  · intro hex
+    induction cs generalizing h with
+    | nil => rfl
+    | cons c cs ih =>
+      obtain ⟨h', he⟩ := hex
+      unfold runChain at he
+      cases hc : c.apply h with
+      | error e => rw [hc] at he; cases he
+      | ok h1 =>
+        rw [hc] at he
+        unfold chainValid
+        cases ht : c.target h.kind with
+        | none =>
+          rw [step_rejects c h hw (.inl ht)] at hc; cases hc
+        | some k' =>
+          simp only [Bool.and_eq_true]
+          cases hv : c.argsValid h.shape.length with
+          | false => rw [step_rejects c h hw (.inr hv)] at hc; cases hc
+          | true =>
+            obtain ⟨h1', hc', hk⟩ := step_ok c h hw k' ht hv
+            rw [hc] at hc'
+            have := Except.ok.inj hc'
+            subst this
+            obtain ⟨hs1, hw1, _⟩ := step_sound c h h1 hw hc
+            refine ⟨rfl, ?_⟩
+            have := ih h1 hw1 ⟨h', he⟩
+            rw [hs1, hk] at this
+            exact this
+  · exact chain_ok cs h hw
+
+end rejects
+
+end Pyttb
